@@ -95,6 +95,11 @@ pub trait Interface: ErrorHandler {
                     header = call_header;
                 }
             }
+            else {
+                // An empty message, or an empty unit in front of the terminator, ends the
+                // message as well and resets the header to the root node.
+                header = self.root_node();
+            }
 
             input = i;
         }
